@@ -387,14 +387,19 @@ def check_c13(rep, tier, seed, wd, replay):
         spath = os.path.join(wd, "race.script")
         # the race detector costs 5-20x in time and memory: the map-heavy workloads plus the smallest generated ones
         ngen = min(400, len(cases) // 3)
-        small = sorted(conc[:ngen], key=lambda c: sum(len(l) for l in c[1]))[: (10 if tier == "quick" else 60)]
-        rconc = small + (conc[ngen:][:8] if tier == "quick" else conc[ngen:][:32])
+        small = sorted(conc[:ngen], key=lambda c: sum(len(l) for l in c[1]))[: (10 if tier == "quick" else 30)]
+        rconc = small + (conc[ngen:][:8] if tier == "quick" else conc[ngen:][:16])
         with open(spath, "w") as f:
             for cid, lines in rconc:
                 f.write("case %s\n%s\nend\n" % (cid, "\n".join(lines)))
         env = dict(os.environ, GOMAXPROCS="8", VERIF_REPS="1" if tier == "quick" else "2", VERIF_GOROUTINES="16", VERIF_CONC_READ="1", VERIF_SHARE_OPTS="1",
                    GORACE="exitcode=0 halt_on_error=0")
-        p = subprocess.run([os.path.join(cm.BUILD, "impl_race"), "writeconc", spath], stdout=subprocess.PIPE, stderr=subprocess.PIPE, env=env, timeout=9000)
+        try:
+            p = subprocess.run([os.path.join(cm.BUILD, "impl_race"), "writeconc", spath], stdout=subprocess.PIPE, stderr=subprocess.PIPE, env=env, timeout=9000)
+        except subprocess.TimeoutExpired as te:
+            # neither a hang nor a slow machine can be told apart from here: the stage is not shown to have passed
+            rep.add_violation("executor-crash", "the race-detector run of %d concurrent workloads did not finish within 9000 s" % len(rconc), [], failing_input=False)
+            p = subprocess.CompletedProcess(te.cmd, 0, stdout=te.stdout or b"", stderr=te.stderr or b"")
         errtxt = p.stderr.decode(errors="replace")
         if p.returncode != 0:
             rep.add_violation("executor-crash", "impl_race writeconc exited %s: %s" % (p.returncode, errtxt[-1500:]), [], failing_input=False)
